@@ -12,6 +12,7 @@
 import Proofs.C13_Dom
 import Proofs.C13_Reader
 import Proofs.C13_Container
+import Proofs.Pins
 namespace Mammoth
 
 /-! ## 1. what `parse_xml` erases -/
@@ -323,5 +324,14 @@ example : c13_normTarget S!"word" S!"styles2.xml" = S!"word/styles2.xml"
 
 example : innerTextL [.text S!"a", .elem S!"x" [] [.text S!"b", .text S!"c"], .text S!"d"]
     = innerTextL (c13_mergeTextL [.text S!"a", .elem S!"x" [] [.text S!"bc"], .text S!"d"]) := by rfl
+
+/-- The tables of the library that this property's theorems consume (regenerated from /repo's source on this run) still have the
+    content the model was validated against: the reader's dispatch table; the set of deliberately ignored elements; the namespace URI -> prefix table.  An edit of one of them in the library changes model and code
+    alike; it is this theorem that then no longer checks (`Proofs/Pins.lean`). -/
+theorem C13_tables_as_validated :
+    (Generated.handlers = pin_handlers) ∧
+    (sameSet Generated.ignored pin_ignored = true) ∧
+    (sameSet Generated.namespaces pin_namespaces = true) :=
+  ⟨pins_handlers, pins_ignored, pins_namespaces⟩
 
 end Mammoth
